@@ -16,7 +16,7 @@ CHECKS = {
     note="A stale read is only visible when stale bytes reach an output, a condition or a trap; poisoning (debug assertions) and observation epilogues raise the odds."),
  "C03": dict(
     technique=PBT + "the unpruned run of the same program (differential oracle) + executed-statement log vs recomputed reachability",
-    text="Each generated program is run with and without the resolver's optimisation plan on the same AST and facts; printed values and ending must be identical, and no statement the analysis calls unreachable may execute when nothing is pruned; a program that ends when every statement is executed but does more than twice that work with the plan is reported as not stopping. A bounded-exhaustive family of recursion cycles (2..6 functions, one member silently reading or assigning an enclosing variable) checks the interprocedural summaries. Hook counters measure that the plan was non-empty and actually skipped something.",
+    text="Each generated program is run with and without the resolver's optimisation plan on the same AST and facts; printed values and ending must be identical, and no statement the analysis calls unreachable may execute when nothing is pruned; a program that ends when every statement is executed but does more than twice that work with the plan is reported as not stopping. A bounded-exhaustive family of recursion cycles and call chains (2..6 functions, one member silently reading or assigning a variable of an enclosing scope, in three nesting contexts) checks the interprocedural summaries. Hook counters measure that the plan was non-empty and actually skipped something.",
     note="Runs ending in resource exhaustion are not compared; non-termination changes are out of reach."),
  "C04": dict(
     technique=PBT + "a reference interpreter with lexical environments; site-tagged literals",
@@ -75,7 +75,7 @@ CHECKS.update({
     note="Needs process spawning in the sandbox; env-pair counting cases the documentation leaves open are discarded."),
  "C16": dict(
     technique="property-based testing of generated emission plans x capture policies x caps x poll intervals (sampled schedules) against a plan-derived expectation",
-    text="A helper child executes generated emission plans (chunked stdout/stderr, delays, invalid UTF-8 as an impossible byte or as a truncated / overlong / surrogate / stray sequence at start, middle or end, exit code or signal, linger) under all nine capture policy pairs, caps at cap-1/cap/cap+1 around chunk and pipe sizes, poll intervals 1-50 ms and timeouts far above or below the run time. Captured output must be complete and unmixed or the run must end with the documented error; after an error the child must be gone.",
+    text="A helper child executes generated emission plans (chunked stdout/stderr, delays, invalid UTF-8 as an impossible byte or as a truncated / overlong / surrogate / stray sequence at start, middle or end, exit code or signal, linger) under all nine capture policy pairs, caps at cap-1/cap/cap+1 around chunk and pipe sizes, poll intervals 1-50 ms and timeouts far above or below the run time, plus six fixed near-timeout cases and a 128 KiB standard input that the child never reads. Captured output must be complete and unmixed or the run must end with the documented error; after an error the child must be gone.",
     note="Thread interleavings are sampled, not enumerated (no schedule hooks); timing margins >= 10x, a missed margin is inconclusive."),
  "C18": dict(
     technique="generated parametric size families with threshold search guided by the limit warning (bounded search + proptest-chosen sizes), differential against a re-implementation of the staged limit comparison over measured counts",
